@@ -13,6 +13,23 @@ def instList : List Ty → List Ty → Bool
   | a :: r, b :: r' => inst a b && instList r r'
   | _, _ => false
 
+theorem inst_printable (f g : Ty) (h : inst f g = true) (hp : printable g = true) : printable f = true := by
+  cases f <;> cases g <;> simp_all [inst, printable]
+
+theorem instList_printable : ∀ (fs gs : List Ty), instList fs gs = true → gs.all printable = true →
+    fs.all printable = true := by
+  intro fs
+  induction fs with
+  | nil => intro gs _ _; rfl
+  | cons f r ih =>
+    intro gs h hp
+    cases gs with
+    | nil => simp [instList] at h
+    | cons g r' =>
+      simp only [instList, Bool.and_eq_true] at h
+      simp only [List.all_cons, Bool.and_eq_true] at hp ⊢
+      exact ⟨inst_printable f g h.1 hp.1, ih r' h.2 hp.2⟩
+
 def patBeq : Pat → Pat → Bool
   | .wild, .wild => true
   | .variant n bs, .variant n' bs' => patNameEq n n' && bs == bs'
